@@ -32,6 +32,13 @@ def run(res, replay=None):
             c = 2.0 ** j
             cases.append({'spec': s, 'c': c, 'regularize_check': moderate})
     if not replay:
+        # designed cases (independent of the random draws): every multiple-merger model, scaled and unscaled, with a size != 1
+        for mdl in ({'kind': 'beta', 'alpha': 1.5, 'scale_time': False}, {'kind': 'beta', 'alpha': 1.25, 'scale_time': True},
+                    {'kind': 'dirac', 'psi': 0.25, 'c': 2.0, 'scale_time': False}, {'kind': 'dirac', 'psi': 0.75, 'c': 1.0, 'scale_time': True}):
+            s = {'n_items': [['a', rng.choice([3, 4])]], 'model': mdl,
+                 'pop_sizes': {'a': {'0.0': rng.choice([4.0, 0.25, 16.0]), repr(rng.choice([0.5, 1.0])): rng.choice([2.0, 0.5])}}}
+            cases.append({'spec': s, 'c': 2.0 ** rng.choice([-2, 3, 6]), 'regularize_check': False})
+    if not replay:
         # large time units: sizes near the upper end of the claimed range, changes that touch only migration rates
         for i in range(3 if res.tier == 'quick' else 12):
             s = gen.rand_spec(rng, n_total=rng.choice([2, 3]), n_demes=2, n_epochs=2, end_time='never', size_range=(-2, 0),
